@@ -580,6 +580,7 @@ def main(argv, PROPS, MODELS):
     import argparse
     ap = argparse.ArgumentParser()
     ap.add_argument("pid")
+    ap.add_argument("model", nargs="?", help="selftest: restrict to one model")
     ap.add_argument("--tier", default=os.environ.get("VERIF_TIER", "quick"), choices=["quick", "thorough"])
     ap.add_argument("--replay")
     ap.add_argument("--selftest", action="store_true")
@@ -587,8 +588,9 @@ def main(argv, PROPS, MODELS):
     seed = int(os.environ.get("VERIF_SEED", "1"))
     try:
         if a.pid == "selftest":
+            todo = sorted((m, M) for m, M in MODELS.items() if not a.model or m == a.model)
             with cf.ThreadPoolExecutor(4) as ex:
-                list(ex.map(lambda mm: selftest(mm[0], mm[1]), sorted(MODELS.items())))
+                list(ex.map(lambda mm: selftest(mm[0], mm[1]), todo))
             return 0
         if a.pid == "build":
             for b in sorted({M["bin"] for M in MODELS.values()}):
